@@ -1,7 +1,7 @@
 (* C08 — the memory limit is a hard cap and memory accounting is exact (sequential use).
    Statements only; proofs are in ArenaProofs.v.  Both arenas: [vec_store] is
    Arena::store_str, [lf_store] is LockfreeArena::store_str used from one thread. *)
-From Lasso Require Import Base Arena ArenaProofs.
+From Lasso Require Import Base Arena ArenaProofs Ctors.
 
 (* what any single store does, for either arena: invariant kept (usage = sum of block
    capacities, no block over-filled), limit untouched, usage <= max(old usage, limit),
@@ -63,6 +63,15 @@ Theorem C08_raise_lockfree : forall a s a' e m,
   exists a'' r, lf_store (set_limit a m) s = (a'', Ok r).
 Proof. exact lf_store_raise. Qed.
 Print Assumptions C08_raise_lockfree.
+
+(* every public constructor forwards the capacity and the limit it was given (or the documented defaults: 4096
+   bytes, no limit) and starts from a well-formed arena whose usage is its first block *)
+Theorem C08_constructors : forall (c : ctor) (cap lim : N), 0 < cap ->
+  let a := ctor_arena c cap lim in
+  ArenaInv a /\ usage a = fst (ctor_args c cap lim) /\ limit a = snd (ctor_args c cap lim) /\
+  bucket_cap a = fst (ctor_args c cap lim).
+Proof. exact ctor_arena_ok. Qed.
+Print Assumptions C08_constructors.
 
 (* the defect repaired by the `fix:` commit a2175b5 (F1): the unrepaired growth step, run on
    Capacity 10 / limit 15, fills a 5-byte block with 8 bytes and reports success *)
